@@ -1,7 +1,8 @@
-From V Require Import Base.Bytes Base.Obs Model.Escape Model.Tok Model.Hole.
+From V Require Import Base.Bytes Base.Obs Model.Escape Model.Tok Model.Rcdata Model.Hole.
 Inductive case :=
 | CEscape (s : bytes)          (* html.EscapeString / escapeAttrValue / a serialised text node *)
 | CTok (s : bytes)             (* the tokenizer fragment on an arbitrary string *)
+| CRc (tag s : bytes)          (* the content of a <textarea> / <title>: character data, and whether its end tag was found *)
 | CMini (W : list (env * list tnode)) (r : env) (t : list tnode).   (* the miniature evaluator of Model/Hole.v on concrete data; W: the component files *)
 (* canonical print of a DOM: adjacent text merged, whitespace removed from text, empty text dropped *)
 Definition strip_ws (s : bytes) : bytes := filter (fun c => negb (is_hws c)) s.
@@ -48,6 +49,7 @@ Definition run (c : case) : obs :=
       | Ok d => OA (flat_map (show_item 40) (merge_items (map (to_item 40) d)))
       | _ => OL [OS "error"]
       end
+  | CRc tag s => let '(t, k) := rc_split tag s in OL [OA t; OB (match k with Some _ => true | None => false end)]
   | CTok s =>
       let '(st, out) := Tok.run (Data []) s in
       let flush := match st with Data txt => emit_text txt | TagOpen txt => emit_text (txt ++ [x3c]) | _ => [] end in
